@@ -178,7 +178,11 @@ c11_type_error!(c11_t_err_sub_bool_num, BinaryOp::Subtract, |_, b| Expr::Bool(b)
 c11_type_error!(c11_t_err_mul_null_num, BinaryOp::Multiply, |_, _| Expr::Null, |a, _| num(a));
 c11_type_error!(c11_t_err_div_num_null, BinaryOp::Divide, |a, _| num(a), |_, _| Expr::Null);
 c11_type_error!(c11_t_err_and_num_bool, BinaryOp::And, |a, _| num(a), |_, b| Expr::Bool(b));
-c11_type_error!(c11_t_err_or_bool_null, BinaryOp::NaturalOr, |_, b| Expr::Bool(b), |_, _| Expr::Null);
+// the right operand is type-checked even when the left one decides the result (defect fixed in
+// e9f5143: `true or null` was `true`, `false and 3` was `false`); quick tier so that a regression
+// is seen on every change
+c11_type_error!(c11_q_err_or_bool_null, BinaryOp::NaturalOr, |_, b| Expr::Bool(b), |_, _| Expr::Null);
+c11_type_error!(c11_q_err_and_bool_num, BinaryOp::And, |_, b| Expr::Bool(b), |a, _| num(a));
 c11_type_error!(c11_q_err_lt_num_bool, BinaryOp::Less, |a, _| num(a), |_, b| Expr::Bool(b));
 c11_type_error!(c11_t_err_ge_null_null, BinaryOp::GreaterEq, |_, _| Expr::Null, |_, _| Expr::Null);
 c11_type_error!(c11_t_err_dotlt_bool_num, BinaryOp::DotLess, |_, b| Expr::Bool(b), |a, _| num(a));
